@@ -74,11 +74,10 @@ Fixpoint zero_value_at (ts : list pty) (vs : list gval) : bool :=
   | _, _ => false
   end.
 
-Definition msg_makefunc_zero : bytes :=
-  bs "reflect: function created by MakeFunc using closure returned zero Value"%string.
-Definition msg_too_few : bytes := bs "reflect: Call with too few input arguments"%string.
-Definition msg_too_many : bytes := bs "reflect: Call with too many input arguments"%string.
-Definition msg_zero_arg : bytes := bs "reflect: Call using zero Value argument"%string.
+Definition msg_makefunc_zero : bytes := Eval compute in bs "reflect: function created by MakeFunc using closure returned zero Value"%string.
+Definition msg_too_few : bytes := Eval compute in bs "reflect: Call with too few input arguments"%string.
+Definition msg_too_many : bytes := Eval compute in bs "reflect: Call with too many input arguments"%string.
+Definition msg_zero_arg : bytes := Eval compute in bs "reflect: Call using zero Value argument"%string.
 
 (* what the caller of a remote call gets *)
 Inductive rres :=
@@ -140,10 +139,10 @@ Definition execute (m : method) (name : bytes) (args : list gval) : xres * log :
         else of_fout (m_id m) args (impl (m_id m) args)
     end.
 
-Definition invalid_request_text (req : bytes) : bytes :=
-  bs "hprose/rpc/core: invalid request:"%string ++ crlf ++ req.
+Definition invalid_request_pre : bytes := Eval compute in bs "hprose/rpc/core: invalid request:"%string.
+Definition invalid_request_text (req : bytes) : bytes := invalid_request_pre ++ crlf ++ req.
 
-Definition tilde : bytes := bs "~"%string.
+Definition tilde : bytes := Eval compute in bs "~"%string.
 
 (* Service.Handle / Process for one request; [rh] = the response headers set while handling *)
 Definition handle (o : sopts) (svc : registry) (rh : headers) (req : bytes) : option bytes * log :=
@@ -154,6 +153,13 @@ Definition handle (o : sopts) (svc : registry) (rh : headers) (req : bytes) : op
     end in
   match fst (service_decode lower io_dec io_dec_hdrs o svc req) with
   | SDOk r =>
+      let '(x, l) := execute (rq_method r) (rq_name r) (rq_args r) in
+      match x with
+      | XRes vs => reply (inl (shape vs)) l
+      | XErr e => reply (inr e) l
+      end
+  | SDDirty r =>
+      (* Decode reported no error: the call is executed although the headers were not understood *)
       let '(x, l) := execute (rq_method r) (rq_name r) (rq_args r) in
       match x with
       | XRes vs => reply (inl (shape vs)) l
